@@ -380,3 +380,61 @@ def run_assignment_siblings_rule(run, rule_id="F-ROLE.siblings"):
                     break
         run.ob(ok, f"{cname}.visit_objects", file=m.rel, line=f.node.lineno, detail=f"same-as-{ref[0]}", expected=f"identical to {ref[0]}.visit_objects up to the target flag", found="identical" if ok else "differs: " + diff)
     run.end()
+
+
+MEMO_CONTROL = """
+class InlineCode:
+    def visit_objects(self, operation):
+        for option in self.options:
+            if option not in self._expanded:
+                self._expanded.add(option)
+                option.content = operation(option.content, 1)
+"""
+
+
+def _memo_hits(fn):
+    hits = []
+    for n in ast.walk(fn):
+        if isinstance(n, ast.Call) and isinstance(n.func, ast.Attribute) and n.func.attr in ("add", "append", "update", "extend", "insert", "setdefault", "discard", "remove", "clear", "pop"):
+            d = dotted(n.func.value) or ""
+            if d.startswith("self."):
+                hits.append((n, f"`{src(n)[:50]}` updates a container of the statement"))
+        if isinstance(n, (ast.Assign, ast.AugAssign, ast.Delete)):
+            for t in (n.targets if not isinstance(n, ast.AugAssign) else [n.target]):
+                if isinstance(t, ast.Subscript) and (dotted(t.value) or "").startswith("self."):
+                    hits.append((n, f"`{src(n)[:50]}` updates a container of the statement"))
+        if isinstance(n, ast.Compare) and any(isinstance(o, (ast.In, ast.NotIn)) for o in n.ops) and any((dotted(c) or "").startswith("self.") for c in n.comparators):
+            if any(isinstance(a, (ast.If, ast.IfExp, ast.While)) for a in [n]) or True:
+                hits.append((n, f"`{src(n)[:50]}` consults a container of the statement"))
+    return hits
+
+
+def run_memo_rule(run, rule_id="F-VISIT.memo"):
+    """every traversal of the IR (sensitivity inference, usage / driver check, reset set, clean-ups, alias rewrites) walks
+    the WHOLE statement: a traversal that remembers what it has visited in the statement itself skips those parts in
+    every later traversal."""
+    run.begin(
+        rule_id,
+        "IR traversals (visit / visit_objects) are stateless: they neither record visited parts in a container kept on "
+        "the statement nor skip parts listed there - the same fragment is presented to EVERY traversal",
+        floor=40,
+    )
+    m = run.idx.mod(IRR)
+    for cname in m.classes:
+        if "." in cname:
+            continue
+        for meth in ("visit_objects", "visit"):
+            f = m.functions.get(f"{cname}.{meth}")
+            if f is None:
+                continue
+            hits = _memo_hits(f.node)
+            # membership tests alone (no recording) are reported only together with an update: pure look-ups of
+            # construction-time tables are legitimate
+            upd = [h for h in hits if "updates" in h[1]]
+            run.ob(not upd, f"ir.{cname}.{meth}", file=m.rel, line=(upd[0][0].lineno if upd else f.node.lineno), detail="stateless", expected="no container of the statement is updated during a traversal",
+                   found="ok" if not upd else upd[0][1] + (" and skips what is listed there" if len(hits) > len(upd) else ""), sample=cname == "InlineCode")
+    ctl = ast.parse(MEMO_CONTROL)
+    if len([h for h in _memo_hits(ctl) if "updates" in h[1]]) != 1:
+        raise AnalysisError(f"{rule_id}: positive control not recognised")
+    run.note("positive control recognised: `self._expanded.add(option)` inside visit_objects")
+    run.end()
